@@ -490,9 +490,69 @@ class Evaluator:
     def stmt(self, st, fr):
         m = getattr(self, 'st_' + type(st).__name__, None)
         if m is None:
+            if any(isinstance(n, (ast.Return, ast.Raise, ast.Yield, ast.YieldFrom, ast.Break, ast.Continue)) for n in ast.walk(st)):
+                # a statement kind the evaluator does not know that can leave the function: treating it as falling through
+                # would invent or lose exits
+                from .loader import AnalysisError
+                raise AnalysisError('%s:%d: statement kind %s is not modelled and contains exits'
+                                    % (fr.fn.module.relpath if fr.fn else '?', st.lineno, type(st).__name__))
             self._havoc_targets(st, fr, 'unsupported statement %s' % type(st).__name__)
             return FALL
         return m(st, fr)
+
+    _match_counter = [0]
+
+    def st_Match(self, st, fr):
+        """`match subject:` over value / singleton / or-patterns, a wildcard or a capture name is the if/elif chain it
+        abbreviates (the subject is evaluated once); sequence, mapping and class patterns are not modelled (UNDECIDED)."""
+        from .loader import AnalysisError
+        subj = self.expr(st.subject, fr)
+        r = self._maybe_raise(subj)
+        if r is not FALL and not _has_fall(r):
+            return r
+        if r is not FALL:
+            subj = _strip_raise(subj)
+        self._match_counter[0] += 1
+        tmp = '__match_subject_%d' % self._match_counter[0]
+        fr.env[tmp] = subj
+
+        def where():
+            return '%s:%d' % (fr.fn.module.relpath if fr.fn else '?', st.lineno)
+
+        def test_of(pat):
+            if isinstance(pat, ast.MatchValue):
+                return ast.Compare(left=ast.Name(id=tmp, ctx=ast.Load()), ops=[ast.Eq()], comparators=[pat.value])
+            if isinstance(pat, ast.MatchSingleton):
+                return ast.Compare(left=ast.Name(id=tmp, ctx=ast.Load()), ops=[ast.Is()], comparators=[ast.Constant(value=pat.value)])
+            if isinstance(pat, ast.MatchOr):
+                return ast.BoolOp(op=ast.Or(), values=[test_of(q) for q in pat.patterns])
+            if isinstance(pat, ast.MatchAs) and pat.pattern is None and pat.name is None:
+                return ast.Constant(value=True)
+            raise AnalysisError('%s: match pattern %s is not modelled' % (where(), type(pat).__name__))
+
+        chain = []      # innermost last
+        for case in st.cases:
+            pat, body = case.pattern, list(case.body)
+            if isinstance(pat, ast.MatchAs) and pat.pattern is None and pat.name is not None:
+                if case.guard is not None:
+                    raise AnalysisError('%s: capture pattern with a guard is not modelled' % where())
+                test = ast.Constant(value=True)
+                body = [ast.Assign(targets=[ast.Name(id=pat.name, ctx=ast.Store())], value=ast.Name(id=tmp, ctx=ast.Load()))] + body
+            else:
+                test = test_of(pat)
+                if case.guard is not None:
+                    test = ast.BoolOp(op=ast.And(), values=[test, case.guard])
+            chain.append((test, body))
+        node = None
+        for test, body in reversed(chain):
+            node = ast.If(test=test, body=body, orelse=[node] if node is not None else [])
+            ast.copy_location(node, st)
+            ast.fix_missing_locations(node)
+        res = self.st_If(node, fr) if node is not None else FALL
+        fr.env.pop(tmp, None)
+        if r is not FALL:
+            return _replace_fall(r, res) if res is not FALL else r
+        return res
 
     def st_Expr(self, st, fr):
         if isinstance(st.value, ast.Constant):
